@@ -185,6 +185,15 @@ func runPlanK(def *PropDef, p *Plan, scratch string) *RunResult {
 	}
 	ke := &kEval{def: def, r: r, k: k, events: events, plan: p, res: res, rng: NewRng(Mix(p.Seed, 77)), base: base, sigSeen: map[string]bool{}, stateSeen: map[string]bool{}}
 	ke.run(points)
+	var names []string
+	for i, pt := range points {
+		if i >= 25 {
+			names = append(names, fmt.Sprintf("... %d more", len(points)-i))
+			break
+		}
+		names = append(names, fmt.Sprintf("%d:%s(op %d %s)", pt.Mut, pt.EvName, pt.Op, k.ops[pt.Op].Kind))
+	}
+	res.Extra = map[string]any{"fs_mutations_of_the_run": len(points), "crash_points": names, "images_evaluated": ke.evals, "faults": res.Faults}
 	res.Evals = ke.evals
 	if res.Evals == 0 {
 		res.Evals = 1
